@@ -80,6 +80,19 @@ def Covered (T : Tables) (k : Kind) (f : Field) : Prop :=
   disp T fuel k f ≠ .ignored ∨
     ∃ g, grammarGuard k f = some g ∧ (disp T fuel g.1 g.2).blocked = true
 
+/-- Statement kinds whose visitor must hand the statement on to the checker (they carry an expression to be
+    evaluated / a definition, and are not turned into control flow by the builder). -/
+def valueStatements : List Kind := [.Assign, .AugAssign, .AnnAssign, .Return, .Expr, .FunctionDef, .With]
+
+/-- A value-bearing statement is recorded in its basic block — unconditionally, or dropped only under a
+    condition that includes "the value is a compiler temporary" (`is_tmp_var`: the result variable of a
+    desugared branching expression, whose evaluation has already been emitted). -/
+def recordedOK (recs : List (Kind × RecordHow)) (k : Kind) : Bool :=
+  match recs.lookup k with
+  | some .always => true
+  | some (.guarded atoms) => atoms.contains .tmpVar && !atoms.contains .unanalysable
+  | _ => false
+
 /-- executable form of `Covered` -/
 def coveredB (T : Tables) (k : Kind) (f : Field) : Bool :=
   decide (disp T fuel k f ≠ .ignored) ||
